@@ -8,8 +8,10 @@ require (
 	github.com/elliotchance/orderedmap/v3 v3.1.0
 	github.com/mongodb-forks/digest v1.1.0
 	github.com/schollz/progressbar/v3 v3.18.0
+	github.com/spf13/pflag v1.0.6
 	github.com/tink-crypto/tink-go/v2 v2.4.0
 	go.mongodb.org/mongo-driver v1.17.4
+	google.golang.org/protobuf v1.36.5
 )
 
 require (
@@ -18,7 +20,6 @@ require (
 	github.com/klauspost/compress v1.16.7 // indirect
 	github.com/mitchellh/colorstring v0.0.0-20190213212951-d06e56a500db // indirect
 	github.com/rivo/uniseg v0.4.7 // indirect
-	github.com/spf13/pflag v1.0.6 // indirect
 	github.com/xdg-go/pbkdf2 v1.0.0 // indirect
 	github.com/xdg-go/scram v1.1.2 // indirect
 	github.com/xdg-go/stringprep v1.0.4 // indirect
@@ -27,5 +28,4 @@ require (
 	golang.org/x/sys v0.33.0 // indirect
 	golang.org/x/term v0.32.0 // indirect
 	golang.org/x/text v0.26.0 // indirect
-	google.golang.org/protobuf v1.36.5 // indirect
 )
